@@ -217,8 +217,8 @@ def _finish(entries, pre, why="", rule="ok"):
         if s["type"] == "file" and old["type"] in ("file", "link"):
             # like install(1): whatever non-directory is at the destination is replaced, a symlink is never followed
             continue
-        if s["type"] == "link" and "target" in s and old["type"] == "link" and not s.get("src_dirlink"):
-            continue  # a symlink copied by doins replaces the symlink that is there
+        if s["type"] == "link" and "target" in s and old["type"] in ("link", "file") and not s.get("src_dirlink"):
+            continue  # a symlink copied by doins replaces the symlink / regular file that is there
         if s["type"] in ("dir", "keepdir") and old["type"] == "dir":
             continue
         return _res("unspecified", "destination %r collides with an existing %s" % (p, old["type"]), "collision")
@@ -232,6 +232,9 @@ def _finish(entries, pre, why="", rule="ok"):
     out = _res("ok", why, rule, entries, sorted(parents - set(entries)))
     # destinations that currently hold a symlink (dangling or not): replaced, never written through
     out["replaces_links"] = sorted(p for p in entries if pre.get(p, {}).get("type") == "link")
+    # destinations that hold a regular file: replaced by a new inode (other hard links of the old one keep theirs)
+    out["replaces_files"] = sorted(p for p, s in entries.items() if s["type"] in ("file", "link")
+                                   and pre.get(p, {}).get("type") == "file")
     return out
 
 
